@@ -234,18 +234,28 @@ def registerStyle (x : Id) : DM Unit := do
         else
           updD fun s => { s with sdict := sdSet s.sdict name x }            -- _styles_dict[name] = elt
 
-/-- `build_caches(elt)` -/
-def buildCaches (x : Id) : DM Unit := do
-  updD fun s => { s with edict := edSet s.edict (s.heap x).qn (edGet s.edict (s.heap x).qn ++ [x]) }
-                                                                            -- element_dict[qname].append(elt)
-  if (← rdD fun s => (s.heap x).qn) = QN_STYLE then
-    registerStyle x
-  match (← rdD fun s => lookupAttr KEY_TEXT_STYLE_NAME (s.heap x).attrs) with  -- styleref = elt.getAttrNS(TEXTNS, 'style-name')
+/-- `element_dict[qname].append(elt)` (creating the list when the qname is new) -/
+def edAppend (x : Id) (s : DState) : DState :=
+  { s with edict := edSet s.edict (s.heap x).qn (edGet s.edict (s.heap x).qn ++ [x]) }
+
+/-- `styleref = elt.getAttrNS(TEXTNS, 'style-name'); if styleref in _styles_ooo_fix: elt.setAttrNS(…)` -/
+def fixStyleRef (x : Id) : DM Unit := do
+  match (← rdD fun s => lookupAttr KEY_TEXT_STYLE_NAME (s.heap x).attrs) with
   | none => pure ()
   | some r =>
-    match (← rdD fun s => lookupAttr r s.fix) with                           -- if styleref in _styles_ooo_fix:
+    match (← rdD fun s => lookupAttr r s.fix) with
     | none => pure ()
     | some nw => updD fun s => { s with heap := setAttrs s.heap x (storeAttr KEY_TEXT_STYLE_NAME nw (s.heap x).attrs) }
+
+/-- `if elt.qname == (STYLENS, 'style'): self.__register_stylename(elt)` -/
+def registerIfStyle (x : Id) : DM Unit := do
+  if (← rdD fun s => (s.heap x).qn) = QN_STYLE then registerStyle x
+
+/-- `build_caches(elt)` -/
+def buildCaches (x : Id) : DM Unit := do
+  updD (edAppend x)                                                          -- element_dict[qname].append(elt)
+  registerIfStyle x
+  fixStyleRef x
 
 /-- `rebuild_caches(node)` for a given node -/
 def rebuildCaches (n : Id) : DM Unit := do
@@ -259,17 +269,24 @@ def rebuildAll : DM Unit := do
 
 /-! ### remove_from_caches -/
 
-def removeOne (x : Id) : DM Unit := do
-  updD fun s =>                                                              -- if elt in element_dict.get(qname, ()): ….remove(elt)
-    if x ∈ edGet s.edict (s.heap x).qn then
-      { s with edict := edSet s.edict (s.heap x).qn ((edGet s.edict (s.heap x).qn).erase x) }
-    else s
+/-- `if elt in element_dict.get(qname, ()): element_dict[qname].remove(elt)` -/
+def edDrop (x : Id) (s : DState) : DState :=
+  if x ∈ edGet s.edict (s.heap x).qn then
+    { s with edict := edSet s.edict (s.heap x).qn ((edGet s.edict (s.heap x).qn).erase x) }
+  else s
+
+/-- `if elt.qname == style:style: name = …; if _styles_dict.get(name) is elt: del _styles_dict[name]` -/
+def dropStyleEntry (x : Id) : DM Unit := do
   if (← rdD fun s => (s.heap x).qn) = QN_STYLE then
     match (← rdD fun s => lookupAttr KEY_STYLE_NAME (s.heap x).attrs) with
     | none => pure ()                                                        -- _styles_dict.get(None) is elt: never
     | some name =>
-      if (← rdD fun s => sdGet s.sdict name) = some x then                  -- if _styles_dict.get(name) is elt:
-        updD fun s => { s with sdict := sdDel s.sdict name }                --   del _styles_dict[name]
+      if (← rdD fun s => sdGet s.sdict name) = some x then
+        updD fun s => { s with sdict := sdDel s.sdict name }
+
+def removeOne (x : Id) : DM Unit := do
+  updD (edDrop x)
+  dropStyleEntry x
 
 def removeFromCaches (n : Id) : DM Unit := do
   let l ← walk n
